@@ -309,6 +309,7 @@ func (m *Mutex) TryLock() bool {
 		return true
 	}
 	if m.holder != nil {
+		s.YieldHint()
 		return false
 	}
 	me := s.CurTask()
@@ -474,6 +475,7 @@ func (m *RWMutex) TryLock() bool {
 		return true
 	}
 	if m.writer != nil || m.readers > 0 {
+		s.YieldHint()
 		return false
 	}
 	me := s.CurTask()
